@@ -516,7 +516,7 @@ def _():
     return jump(u) * jump(v) * dS
 
 
-@reg("dS_linear_Q1_hexahedron", "c02 c03 c08", itypes=("interior_facet",))
+@reg("dS_linear_Q1_hexahedron", "c02 c03 c08 q", itypes=("interior_facet",))
 def _():
     m = mesh("hexahedron")
     V = space(m, "Q", 1)
@@ -808,7 +808,7 @@ for _cell in ["triangle", "tetrahedron", "quadrilateral"]:
             reg(f"geom_dx_{_g}_{_cell}", "c01 c08 geom" + (" q" if _cell == "triangle" and _g == "celldiameter" else ""))(_mk_dx)
 
 
-@reg("dS_penalty_triangle", "c02 c03 c08 q", itypes=("interior_facet",))
+@reg("dS_penalty_triangle", "c02 c08 q", itypes=("interior_facet",))
 def _():
     m = mesh("triangle")
     V = space(m, "DG", 1)
@@ -919,7 +919,7 @@ def _():
     return f * u * v * dx(metadata={"quadrature_rule": "vertex", "quadrature_degree": 1})
 
 
-@reg("scheme_vertex_facet_tetrahedron", "c11 c11md", itypes=("exterior_facet",))
+@reg("scheme_vertex_facet_tetrahedron", "c11 c11md q", itypes=("exterior_facet",))
 def _():
     m = mesh("tetrahedron")
     V = space(m)
@@ -960,3 +960,69 @@ def _():
     f = ufl.Coefficient(V)
     v = TestFunction(V)
     return f * v * ds(degree=0) + f * f * v * ds(degree=3)
+
+
+@reg("multi_ids_tuple_scheme", "c06 c11md q", itypes=("cell", "exterior_facet"))
+def _():
+    m = mesh("triangle")
+    V = space(m)
+    u, v = TrialFunction(V), TestFunction(V)
+    return (2 * u * v * dx((1, 2)) + 4 * u * v * dx(1, metadata={"quadrature_rule": "vertex", "quadrature_degree": 1})
+            + 5 * u * v * ds((4, 6)) + 11 * u * v * ds(4, degree=1))
+
+
+@reg("multi_ids_tuple_degrees", "c06 q", itypes=("cell",))
+def _():
+    m = mesh("triangle")
+    V = space(m)
+    f = ufl.Coefficient(V)
+    v = TestFunction(V)
+    return f * f * v * dx((1, 2), degree=1) + f * f * f * v * dx((1, 3), degree=3) + f * v * dx
+
+
+# ---- complex mode: mixed real/complex operands -------------------------------------
+
+
+@reg("cplx_conditional_mixed_branches", "c09 q", scalar="complex128")
+def _():
+    m = mesh("triangle")
+    V = space(m)
+    v = TestFunction(V)
+    f = ufl.Coefficient(V)
+    g = ufl.Coefficient(space(m, "DG", 0))
+    return inner(conditional(lt(ufl.real(f), 0.25), 1.0, f) + conditional(ufl.gt(ufl.imag(g), 0), g, 2.0), v) * dx(degree=1)
+
+
+@reg("cplx_conditional_bilinear", "c09 q", scalar="complex128")
+def _():
+    m = mesh("triangle")
+    V = space(m)
+    u, v = TrialFunction(V), TestFunction(V)
+    g = ufl.Coefficient(space(m, "DG", 0))
+    return conditional(lt(ufl.real(g), 0), 2.0, g) * inner(u, v) * dx + ufl.real(g) * ufl.imag(g) * inner(grad(u), grad(v)) * dx
+
+
+@reg("cplx_functional_mixed", "c09 q", scalar="complex128")
+def _():
+    m = mesh("triangle")
+    f = ufl.Coefficient(space(m))
+    k = ufl.Constant(m)
+    return (conditional(lt(ufl.real(f), ufl.real(k)), ufl.imag(f), f * k) + abs(f) * k + ufl.max_value(ufl.real(f), ufl.imag(k))) * dx(degree=1)
+
+
+@reg("scheme_vertex_ds_triangle", "c11 c11md c02 q", itypes=("exterior_facet",))
+def _():
+    m = mesh("triangle")
+    V = space(m)
+    u, v = TrialFunction(V), TestFunction(V)
+    f = ufl.Coefficient(V)
+    return f * u * v * ds(metadata={"quadrature_rule": "vertex", "quadrature_degree": 1})
+
+
+@reg("scheme_vertex_dS_tetrahedron", "c11 c11md c02", itypes=("interior_facet",))
+def _():
+    m = mesh("tetrahedron")
+    V = space(m, "DG", 1)
+    v = TestFunction(V)
+    f = ufl.Coefficient(V)
+    return f("+") * v("-") * dS(metadata={"quadrature_rule": "vertex", "quadrature_degree": 1})
